@@ -557,11 +557,13 @@ func (f *fx) specBinary(e *ast.BinaryExpr, env *Env) TV {
 	case token.SUB:
 		return tvTerm(T("Int", "(- %s %s)", a.S, b.S), av.GoT)
 	case token.MUL:
-		return tvTerm(T("Int", "(* %s %s)", a.S, b.S), av.GoT)
+		return tvTerm(mulTerm(f.sc, a, b), av.GoT)
 	case token.QUO:
-		return tvTerm(T("Int", "(div %s %s)", a.S, b.S), av.GoT)
+		declareGoDiv(f.sc)
+		return tvTerm(app("Int", "godiv", a, b), av.GoT)
 	case token.REM:
-		return tvTerm(T("Int", "(mod %s %s)", a.S, b.S), av.GoT)
+		declareGoDiv(f.sc)
+		return tvTerm(app("Int", "gorem", a, b), av.GoT)
 	}
 	unsupp("spec operator %s", e.Op)
 	return TV{}
@@ -846,6 +848,30 @@ func (f *fx) specCall(e *ast.CallExpr, env *Env) TV {
 			// the value is unconstrained there
 			if gt == nil {
 				unsupp("lastret: no call of %s was seen before this point", k)
+			}
+			f.regKey(key, f.e.sorts.sortOf(gt))
+		}
+		return tvTerm(f.get(env.cur, key), gt)
+	case "siteret":
+		// siteret("callee key", site, i): i-th result of the most recent call made at static call site number `site`
+		tl, ok := e.Args[0].(*ast.BasicLit)
+		sl, ok1 := e.Args[1].(*ast.BasicLit)
+		il, ok2 := e.Args[2].(*ast.BasicLit)
+		if !ok || !ok1 || !ok2 {
+			unsupp("siteret(\"key\", site, i)")
+		}
+		k, _ := strconv.Unquote(tl.Value)
+		key := fmt.Sprintf("E:sret:%s#%s:%s", k, sl.Value, il.Value)
+		var gt types.Type
+		if fn := f.e.fnByKey[k]; fn != nil {
+			n, _ := strconv.Atoi(il.Value)
+			if n < fn.Signature.Results().Len() {
+				gt = fn.Signature.Results().At(n).Type()
+			}
+		}
+		if _, ok := f.e.keySorts[key]; !ok {
+			if gt == nil {
+				unsupp("siteret: no call of %s at site %s was seen before this point", k, sl.Value)
 			}
 			f.regKey(key, f.e.sorts.sortOf(gt))
 		}
